@@ -41,6 +41,10 @@ fn finish(w: &mut World, cfg: RunCfg, ops: Vec<Op>, stop: Option<Stop>) -> RunRe
             fd = fd.rotate_left(3) ^ crate::rng::fnv64(k.as_bytes()) ^ crate::rng::fnv64(&v);
         }
     }
+    for r in &w.replicas {
+        *stats.entry("probe.backend_calls".into()).or_insert(0) += r.disk.with(|d| d.backend_calls);
+    }
+    w.cleanup();
     let (violation, inconclusive) = match stop {
         Some(Stop::Violation(v)) => (Some(v), None),
         Some(Stop::Inconclusive(s)) => (None, Some(s)),
